@@ -3,6 +3,7 @@
   Property theorems (helper lemmas, if any, live in MosVerif/Lemmas).
 -/
 import MosVerif.Model.Fallback
+import MosVerif.Lemmas.TranslatedC16
 import MosVerif.Generated.Facts
 namespace MosVerif.C16
 open MosVerif.Fallback
@@ -60,10 +61,10 @@ example : spec 7 (.msg 1 true) (.msg 2 false) ⟨.msg 2 false, 1, some 7⟩ = tr
 /-- and it rejects an unnecessary TCP attempt. -/
 example : spec 7 (.msg 1 false) .err ⟨.msg 1 false, 1, some 7⟩ = false := by decide
 
-/-- tie (pinned source facts): the branch tests the header's TC bit and the TCP
-    leg is called with the same context and the same payload `q`. -/
+/-- tie (pinned source facts): the TCP leg is called with the same context and the same payload `q`.
+    That the branch tests the header's TC bit, and the header-only TC test of `ReadMsgFromUDP`, are tied by
+    translation (Lemmas/TranslatedC16.lean: `exchange_translated`, `udpTcHeaderOnly_translated`). -/
 theorem pins :
-    Facts.fallback_tcCond = "r.Header.Truncated" ∧
     Facts.fallback_tcpCall = "return u.t.ExchangeContext(ctx, q)" ∧
     Facts.fallback_udpCall = "r, err := u.u.ExchangeContext(ctx, q)" ∧
     -- both legs dial the same address
